@@ -1,10 +1,10 @@
 """C09 — packaging variants of a program are semantically transparent."""
 from . import core, eng, gen, engcheck, c06
 
-THEOREMS = ["redeclaration_last_wins", "redeclaration_unique", "wfSt_defaultSt", "init_starts_from_initialiser", "init_then_run_duplicates_agg_view"]
+THEOREMS = ["redeclaration_last_wins", "redeclaration_unique", "wfSt_defaultSt", "init_starts_from_initialiser", "init_agg_view_each_once", "init_then_run_view_witness"]
 TRUSTED = ["Lean 4.33.0 kernel", "axioms: propext, Classical.choice, Quot.sound only (audited per theorem)",
            "statement: Props/C09.lean (re-declaration: dedup-keep-last and reverse lookup select the same declaration; initialised relations start from "
-           "exactly their initialiser as sets from any well-formed value; the double indexing of `ascent!` initialisers is witnessed)",
+           "exactly their initialiser as sets from any well-formed value; with aggregation each tuple of an initialiser is seen once, finding F3 fixed by 8b2e261)",
            "attributes (measure_rule_times, generate_run_timeout), generics, ascent_run! capture, include_source! splicing and the segment-codegen "
            "feature are erased by the model: for them the claim is the tie obligation — every variant is compiled and must equal the base's model / oracle",
            "rustc's macro_rules expansion of ascent_source!/include_source! is trusted"]
@@ -145,14 +145,14 @@ def build(rng, tier):
                 cases.append(engcheck.Case(vid, inst, engcheck.std_history(inst, vid, inp), {"inp": inp, "kind": kind}))
         inst = f"{pid}_init_0"
         cases.append(engcheck.Case(f"{pid}_init", inst, [f"eng new {inst} {pid}_init", f"eng run {inst}", f"eng dump {inst}"],
-                                   {"inp": fixed_inp, "kind": "initialised", "class": "F3" if has_agg(p) else None, "baked": True}))
-    # fixed witness of finding F3 (replayed on every run)
+                                   {"inp": fixed_inp, "kind": "initialised", "baked": True}))
+    # witness of finding F3 (fixed by 8b2e261; replayed on every run and must pass)
     w = {"rels": [{"arity": 2}, {"arity": 1}, {"arity": 2}],
          "rules": [{"heads": [(2, [("var", 0), ("var", 21)])], "body": [("cl", 1, [("v", 0)], []), ("agg", [21], "count", [], 0, [("k", ("var", 0)), "_"])]}]}
     winp = {0: [(1, 1), (1, 2), (2, 5)], 1: [(1,), (2,)]}
     progs["f3w_init"] = w; mods.append(("f3w_init", module_init("f3w_init", w, winp)))
     cases.append(engcheck.Case("f3w_init", "f3w_init_0", ["eng new f3w_init_0 f3w_init", "eng run f3w_init_0", "eng dump f3w_init_0"],
-                               {"inp": winp, "kind": "initialised", "class": "F3", "baked": True}))
+                               {"inp": winp, "kind": "initialised", "was": "F3", "baked": True}))
     return progs, mods, cases
 
 
@@ -170,9 +170,7 @@ def canon(c, out):
 
 
 def known(c, p, impl, model):
-    if c.meta.get("class") == "F3":
-        return ("F3", "`relation r(..) = e` under ascent!: Default indexes the initialiser and run() indexes it again; count/sum aggregates over it see each tuple twice")
-    return None
+    return None      # F3 (double indexing of initialisers) is fixed by 8b2e261: nothing is attributed to it any more
 
 
 def check(tier, replay=None):
